@@ -257,9 +257,12 @@ prop('C13',
      units=[
          dict(harness='c13_request_ledger', covers=['c13.accepted', 'c13.refused', 'c13.connected', 'c13.disconnected', 'c13.dial-failure', 'c13.open-failure'],
               min_paths=100, split=4, params={'quick': {'steps': 4}, 'thorough': {'steps': 6}}, conform={'quick': 200, 'thorough': 2000}, nvals=16),
+         dict(harness='c13_inbound_bound', covers=['c13i.admitted', 'c13i.refused'], min_paths=16, split=0,
+              params={'quick': {'steps': 4}, 'thorough': {'steps': 6}}, conform={'quick': 100, 'thorough': 1000}, nvals=10),
      ],
      assumptions=['tokio mpsc channels are modelled as bounded FIFOs that are never full in these scenarios; Sender::send resolves on first poll'],
-     bounds={'peers': 1, 'events': 'quick 4, thorough 6 of send(dial/no dial) / connect / disconnect / dial failure / substream-open failure'},
-     outside=['responses, timeouts, cancellation, inbound requests and their bound (futures over substream I/O and tokio timers)',
+     bounds={'peers': 1, 'events': 'quick 4, thorough 6 of send(dial/no dial) / connect / disconnect / dial failure / substream-open failure',
+             'inbound bound': 'limit 1..2, 2 connected peers, quick 4 / thorough 6 inbound substreams, none of them read yet'},
+     outside=['responses, timeouts, cancellation, reading and answering inbound requests (futures over substream I/O and tokio timers)',
               'several peers', 'the run() select loop'],
      )
